@@ -56,9 +56,16 @@ REALPATH = re.compile(r"^(?:String\.prototype\.(?:trim|concat|substring|replace|
 def comparable_dynamically(code):
     """X.….m.call|apply(..) forms are compared dynamically only when the callee path is made of real intrinsics
     that exist (String.prototype.m, K.prototype.m): the property permits reading a static path before or after the this-argument,
-    and for a path rooted in an observable / reassignable object that permitted reordering makes the two runs
-    incomparable (the static checks C02 / C03 still cover those forms)."""
-    return all(REALPATH.match(m.group(1)) for m in CALLFORM.finditer(code))
+    and for a static path rooted in an observable / reassignable object that permitted reordering makes the two runs
+    incomparable (the static checks C02 / C03 still cover those forms). A path that is not static (it starts at a
+    call result, a parenthesis or a computed member) must be read in source order and is compared."""
+    def ok(m):
+        if REALPATH.match(m.group(1)):
+            return True
+        # f().m.call(..), (e).m.call(..), a[i].m.call(..): not a static path, so no reordering is permitted
+        # (or performed) and the two runs are comparable event by event
+        return code[max(0, m.start() - 2):m.start()] in (").", "].")
+    return all(ok(m) for m in CALLFORM.finditer(code))
 
 
 def canon_hook(h):
